@@ -1,7 +1,7 @@
 (* Extraction of the executable model. Directives used: only those of ExtrOcamlBasic and
    ExtrOcamlZBigInt (listed in DESIGN.md section 4); nat stays the inductive type. *)
 From Coq Require Import Extraction ExtrOcamlBasic ExtrOcamlZBigInt.
-From Verif Require Import Model.C14Run Model.Prog Model.C16Run Model.Plonk Model.C12Run Model.C13Run Model.C15Run Model.C05Run Model.C17Run Model.C02Run Model.C08Run Model.C09Run Model.C10Run Model.C05Run2 Model.C05Run3 Model.C07Run Model.BatchFri Model.C16Run2.
+From Verif Require Import Model.C14Run Model.Prog Model.C16Run Model.Plonk Model.C12Run Model.C13Run Model.C15Run Model.C05Run Model.C17Run Model.C02Run Model.C08Run Model.C09Run Model.C10Run Model.C05Run2 Model.C05Run3 Model.C07Run Model.BatchFri Model.C16Run2 Model.StarkShape.
 Extraction Language OCaml.
 Extraction "model.ml"
   run_add run_sub run_mul run_addc run_subc run_red96 run_red128 run_red160 run_mac run_neg run_square
@@ -20,6 +20,6 @@ Extraction "model.ml"
   run_dec_mproof run_dec_usizevec run_dec_strategy run_dec_friconfig run_dec_friparams run_dec_circuitconfig
   run_dec_verifieronly run_dec_openings run_dec_proof
   run_cpp run_lkc run_clp run_lksel
-  run_l0lastb run_l0last run_consumer run_sat run_vanish run_starkid run_lkcols run_psums run_lkeval run_ctleval run_ctlsum
+  run_l0lastb run_l0last run_consumer run_sat run_vanish run_starkid run_starkshape run_lkcols run_psums run_lkeval run_ctleval run_ctlsum
   run_arity_bits run_friprove
   run_gate_evalbase run_gate_basevsext run_gate_evalext run_gate_generate run_gate_genguard run_gate_pinned run_gate_sizes run_gate_written run_gate_lowdeg run_gate_circuit_agrees run_gate_absdeg run_gate_filter run_gate_evalfiltered run_gate_cosetnew run_gate_subgroup.
